@@ -96,9 +96,8 @@ pub fn run(tier: Tier) -> i32 {
     let run = Run::new("C09", tier);
     let th = tier.thorough();
     // S1: every value with |c| <= N at every scale (non-normalised c included: the family then starts from that representation)
-    let n: i128 = if th { 3_000_000 } else { 250_000 };
-    let small: Vec<i128> = (-n..=n).collect();
-    run.par_for(&small, || {}, |&c, l| { for s in 0..=18u8 { value_case(c, s, l); } });
+    let n: i128 = if th { 15_000_000 } else { 250_000 };
+    run.par_range(-n, n, || {}, |c, l| { for s in 0..=18u8 { value_case(c, s, l); } });
     run.stage("S1 small scope", json!({"|c|<=": n, "scales": 19, "representations": "0..=18-s trailing zeros"}));
     // S2: complete 2-5-smooth lattice times small odd cofactors, at every scale
     let mut lattice: Vec<i128> = Vec::new();
